@@ -139,7 +139,7 @@ impl Prop for Unrelated {
         "C19/unrelated".into()
     }
     fn rule(&self) -> String {
-        "accepted multi-module program P from the rich generator, an observed module M, and a change restricted to modules outside M's transitive `use` closure: add a fresh module (in a fresh directory, at the top, below M's own path, next to M, or next to a nested M under the name of the first segment of one of M's imports; sorting before or after everything; often defining short names M uses or types named like M's members or built-ins; sometimes with extern values, rust backend text, impl blocks of its own, a vftable block copied verbatim from a type M uses together with own definitions of the type names it mentions, and impl blocks for a type of M that it imports but does not define), add items (types, enums, extern types, vftable owners named like things M uses) to an unrelated module, remove an unrelated module nobody imports, remove the last item of an unrelated leaf module, reorder the modules. Oracle: when P and P+change are both accepted, <M>.rs is byte-identical. Pairs where P+change is rejected are discarded and counted. Non-trivial: M has a cross-module reference and the change touches a module that shares a short type name with something M's closure uses".into()
+        "accepted multi-module program P from the rich generator, an observed module M, and a change restricted to modules outside M's transitive `use` closure: add a fresh module (in a fresh directory, at the top, below M's own path, next to M, next to a nested M under the name of the first segment of one of M's imports, or below M under the name of one of M's items; sorting before or after everything; often defining short names M uses or types named like M's members or built-ins; sometimes with extern values, rust backend text, impl blocks of its own, a vftable block copied verbatim from a type M uses together with own definitions of the type names it mentions, and impl blocks for a type of M that it imports but does not define), add items (types, enums, extern types, vftable owners named like things M uses) to an unrelated module, remove an unrelated module nobody imports, remove the last item of an unrelated leaf module, reorder the modules. Oracle: when P and P+change are both accepted, <M>.rs is byte-identical. Pairs where P+change is rejected are discarded and counted. Non-trivial: M has a cross-module reference and the change touches a module that shares a short type name with something M's closure uses".into()
     }
     fn gen(&self, t: &mut Tape) -> Case {
         let w = if t.chance(1, 2) { 8 } else { 4 };
@@ -194,6 +194,17 @@ impl Prop for Unrelated {
                             if !p2.mods.iter().any(|x| x.path == sp) && !p1.mods.iter().any(|x| x.path == sp) {
                                 path = sp;
                                 sibling_import = Some(u);
+                            }
+                        }
+                    }
+                    // or: a child of the observed module called like one of its items (game/Entity.pyxis next to
+                    // `type Entity` in game.pyxis: modules and items live in different tables)
+                    if sibling_import.is_none() && t.chance(1, 6) {
+                        if let Some(n) = p1.mods[obs].items.first().map(|i| i.name().to_string()) {
+                            let mut cp = obs_path.clone();
+                            cp.push(n);
+                            if !p2.mods.iter().any(|x| x.path == cp) {
+                                path = cp;
                             }
                         }
                     }
@@ -260,6 +271,7 @@ impl Prop for Unrelated {
                         if let Some(tn) = first_type {
                             let fname = p1.mods[obs].impls.iter().flat_map(|im| im.funcs.iter()).map(|f| f.name.clone()).next().unwrap_or_else(|| "zfn".into());
                             m.impls.push(Impl {
+                                more: vec![],
                                 ty: tn,
                                 funcs: vec![Func {
                                     more: vec![],
@@ -325,6 +337,7 @@ impl Prop for Unrelated {
                                 }
                                 m.uses.push(up);
                                 m.impls.push(Impl {
+                                    more: vec![],
                                     ty: tn,
                                     funcs: vec![Func {
                                         more: vec![],
